@@ -7,7 +7,8 @@ import AsynqModel.Lib.Cache
   (case cache <id> lazy <ttl> <t0>)
   <sig> = ((args..) (defaults..) (kwonly..) ((name default)..))
   (obs <op> <res> <runs> <extra>)
-  <op>  = (call <inst> (args..) ((name value)..) <raises> <dur>) | (drop <inst>) | (dirty) | (tick <d>)
+  <op>  = (call <inst> (args..) ((name value)..) <raises> <dur> <selfref>) | (drop <inst>) | (dirty) | (tick <d>)
+          (<selfref> = the value the body returns refers to the instance; per-instance cases only, optional, default 0)
   <res> = (ok <stamp> (args..)) | (okNone) | (raisedUser <n>) | (raisedType) | (raisedOther <name>) | (unit)
 -/
 namespace AsynqModel.Drv.Cache
@@ -42,14 +43,16 @@ def res? : Sexp → Option Res
 
 /-- the generic wire operation -/
 inductive WOp where
-  | call (inst : Nat) (c : Call) (raises : Bool) (dur : Nat)
+  | call (inst : Nat) (c : Call) (raises : Bool) (dur : Nat) (selfRef : Bool)
   | drop (inst : Nat)
   | dirty
   | tick (d : Nat)
 
 def wop? : Sexp → Option WOp
   | .list [.atom "call", i, a, kw, r, d] => do
-    some (.call (← i.nat?) { args := (← a.natList?), kwargs := (← pairs? kw) } (← r.bool?) (← d.nat?))
+    some (.call (← i.nat?) { args := (← a.natList?), kwargs := (← pairs? kw) } (← r.bool?) (← d.nat?) false)
+  | .list [.atom "call", i, a, kw, r, d, sr] => do
+    some (.call (← i.nat?) { args := (← a.natList?), kwargs := (← pairs? kw) } (← r.bool?) (← d.nat?) (← sr.bool?))
   | .list [.atom "drop", i] => i.nat?.map .drop
   | .list [.atom "dirty"] => some .dirty
   | .list [.atom "tick", d] => d.nat?.map .tick
@@ -71,20 +74,24 @@ def clauseStr : Option Clause → String
   | none => "ok"
   | some c => "fail:" ++ c.name
 
-/-- `hyp` = does the case lie inside the hypotheses of the refinement theorem of its cache (C13_alru_refines_partial /
-    _keyfn, C13_per_instance_refines, C13_lazy_refines)?  If it does, SPECM=ok is what the theorem says. -/
-def answer (id : Nat) (model impl : List Obs) (spec specm : String) (hyp : Bool) : String :=
+/-- `hyp` = does the case lie inside the hypotheses of the refinement theorem of its cache (C13_alru_refines / _keyfn,
+    C13_per_instance_refines_partial, C13_lazy_refines)?  If it does, SPECM=ok is what the theorem says.
+    `na` = the case contains a call the property does not speak about (Python cannot bind it because it passes too many
+    positional arguments or one parameter twice; ASSUMPTIONS of checks/c13.py, `C13_*_callOK_needed`): the observers are
+    not evaluated, only the correspondence is. -/
+def answer (id : Nat) (model impl : List Obs) (spec specm : String) (hyp : Bool) (na : Bool := false) : String :=
   let corr := firstDiff model impl
   let c := match corr with | none => "ok" | some _ => "diff"
   let d := match corr with | none => "" | some (i, s) => (s!"obs {i}: {s}".replace "\n" " ")
   let h := if hyp then "hyp=inside" else "hyp=outside"
-  s!"R {id} CORR={c} SPEC={spec} SPECM={specm} | {h} {d}"
+  if na then s!"R {id} CORR={c} SPEC=ok SPECM=ok | {h} spec-not-evaluated(unbindable-call; would be {spec}) {d}"
+  else s!"R {id} CORR={c} SPEC={spec} SPECM={specm} | {h} {d}"
 
 def unparsable (id : Nat) : String := s!"R {id} CORR=diff SPEC=ok SPECM=ok | unparsable case"
 
 def handleAlru (id cap : Nat) (ks : KeySpec) (s : Sig) (lines : List (WOp × Obs)) : String :=
   match lines.mapM (fun (l : WOp × Obs) => match l.1 with
-      | .call _ c r _ => some ({ c := c, raises := r } : Alru.Op) | _ => none) with
+      | .call _ c r _ _ => some ({ c := c, raises := r } : Alru.Op) | _ => none) with
   | none => unparsable id
   | some ops =>
     let impl := lines.map (·.2)
@@ -93,14 +100,13 @@ def handleAlru (id cap : Nat) (ks : KeySpec) (s : Sig) (lines : List (WOp × Obs
     let bd := alruBind s
     let model := Alru.run mk bd (Alru.init cap) ops
     let sp := Alru.specClause rk bd cap ops impl
-    -- diagnosis only: are the observations those of a correct LRU cache over the key AS WRITTEN (args[1:])?
-    let tag := if sp.isSome && ks == .default && (Alru.specClause mk bd cap ops impl).isNone then "+aswritten-key" else ""
-    let hyp := decide (1 ≤ cap) && (ks != .default || ops.all fun op => alruCallOK s op.c)
-    answer id model impl (clauseStr sp ++ tag) (clauseStr (Alru.specClause rk bd cap ops model)) hyp
+    let callsOK := ks != .default || ops.all fun op => alruCallOK s op.c
+    let hyp := decide (1 ≤ cap) && callsOK
+    answer id model impl (clauseStr sp) (clauseStr (Alru.specClause rk bd cap ops model)) hyp (!callsOK)
 
 def handlePerInst (id : Nat) (s : Sig) (lines : List (WOp × Obs)) : String :=
   match lines.mapM (fun (l : WOp × Obs) => match l.1 with
-      | .call i c r _ => some (PerInst.Op.call i c r) | .drop i => some (.drop i) | _ => none) with
+      | .call i c r _ sr => some (PerInst.Op.call i c r sr) | .drop i => some (.drop i) | _ => none) with
   | none => unparsable id
   | some ops =>
     let impl := lines.map (·.2)
@@ -108,12 +114,17 @@ def handlePerInst (id : Nat) (s : Sig) (lines : List (WOp × Obs)) : String :=
     let rk := perInstRefKey s
     let bd := perInstBind s
     let model := PerInst.run mk bd PerInst.init ops
-    let hyp := ops.all fun op => match op with | .call _ c _ => perInstCallOK s c | .drop _ => true
-    answer id model impl (clauseStr (PerInst.specClause rk bd ops impl)) (clauseStr (PerInst.specClause rk bd ops model)) hyp
+    let callsOK := ops.all fun op => match op with | .call _ c _ _ => perInstCallOK s c | .drop _ => true
+    let hyp := callsOK && PerInst.noSelfRef ops
+    let sp := PerInst.specClause rk bd ops impl
+    -- the observations are exactly those of the model, which keeps the entry of a dropped instance that one of its
+    -- own cached values refers to: the recorded defect, told apart from every other way of failing `instances`
+    let tag := if sp == some .instances && !PerInst.noSelfRef ops && model == impl then "+cached-value-refers-to-instance" else ""
+    answer id model impl (clauseStr sp ++ tag) (clauseStr (PerInst.specClause rk bd ops model)) hyp (!callsOK)
 
 def handleLazy (id ttl t0 : Nat) (lines : List (WOp × Obs)) : String :=
   match lines.mapM (fun (l : WOp × Obs) => match l.1 with
-      | .call _ _ r d => some (Lazy.Op.call r d) | .dirty => some .dirty | .tick d => some (.tick d) | _ => none) with
+      | .call _ _ r d _ => some (Lazy.Op.call r d) | .dirty => some .dirty | .tick d => some (.tick d) | _ => none) with
   | none => unparsable id
   | some ops =>
     let impl := lines.map (·.2)
